@@ -19,6 +19,7 @@ theorem ADD_calculate_eq (l r : Int) (vm : VM) :
         flag_carry := decide ((l + r + if (!vm.flag_carry_block && vm.flag_carry) = true then 1 else 0) % 65536 < l + r + if (!vm.flag_carry_block && vm.flag_carry) = true then 1 else 0),
         flag_overflow := decide (from_u16 ((l + r + if (!vm.flag_carry_block && vm.flag_carry) = true then 1 else 0) % 65536) ≠ from_u16 l + from_u16 r + if (!vm.flag_carry_block && vm.flag_carry) = true then 1 else 0) }) := by
   simp [ADD.calculate]
+  all_goals omega
 
 theorem step_add (d a b : Nat) (hd : d < 16) (ha : a < 16) (hb : b < 16) (vm : VM) (hwf : WF vm) :
     StepOK (.alu3 .add d a b) vm := by
@@ -55,6 +56,7 @@ theorem step_and (d a b : Nat) (hd : d < 16) (ha : a < 16) (hb : b < 16) (vm : V
   simp only [← reg_eq_toNat hwf ha, ← reg_eq_toNat hwf hb] at hres hw
   have hcalc : AND.calculate (reg vm a) (reg vm b) vm = .ok (Py.and (reg vm a) (reg vm b), vm) := by
     simp [AND.calculate]
+    all_goals omega
   have hex := BinaryOp_execute_eq AND.calculate vm _ d a b _ hl hd ha hb hcalc hl
   obtain ⟨h1, h2, h3, h4, h5⟩ := alu_finish vm hwf d hd _ vm.flag_carry vm.flag_overflow hres _ hw _ _ rfl rfl
   exact ⟨_, hex, h1, allowed_of_eqv rfl rfl h2, h3, fun _ => ⟨h4, h5⟩⟩
@@ -66,6 +68,7 @@ theorem step_or (d a b : Nat) (hd : d < 16) (ha : a < 16) (hb : b < 16) (vm : VM
   simp only [← reg_eq_toNat hwf ha, ← reg_eq_toNat hwf hb] at hres hw
   have hcalc : OR.calculate (reg vm a) (reg vm b) vm = .ok (Py.or (reg vm a) (reg vm b), vm) := by
     simp [OR.calculate]
+    all_goals omega
   have hex := BinaryOp_execute_eq OR.calculate vm _ d a b _ hl hd ha hb hcalc hl
   obtain ⟨h1, h2, h3, h4, h5⟩ := alu_finish vm hwf d hd _ vm.flag_carry vm.flag_overflow hres _ hw _ _ rfl rfl
   exact ⟨_, hex, h1, allowed_of_eqv rfl rfl h2, h3, fun _ => ⟨h4, h5⟩⟩
@@ -77,6 +80,7 @@ theorem step_xor (d a b : Nat) (hd : d < 16) (ha : a < 16) (hb : b < 16) (vm : V
   simp only [← reg_eq_toNat hwf ha, ← reg_eq_toNat hwf hb] at hres hw
   have hcalc : XOR.calculate (reg vm a) (reg vm b) vm = .ok (Py.xor (reg vm a) (reg vm b), vm) := by
     simp [XOR.calculate]
+    all_goals omega
   have hex := BinaryOp_execute_eq XOR.calculate vm _ d a b _ hl hd ha hb hcalc hl
   obtain ⟨h1, h2, h3, h4, h5⟩ := alu_finish vm hwf d hd _ vm.flag_carry vm.flag_overflow hres _ hw _ _ rfl rfl
   exact ⟨_, hex, h1, allowed_of_eqv rfl rfl h2, h3, fun _ => ⟨h4, h5⟩⟩
@@ -179,6 +183,7 @@ theorem step_lsl8 (d b : Nat) (hd : d < 16) (hb : b < 16) (vm : VM) (hwf : WF vm
   simp only [← reg_eq_toNat hwf hb] at hres hw
   have hcalc : LSL8.calculate (reg vm b) vm = .ok (reg vm b * 256 % 65536, vm) := by
     simp [LSL8.calculate]
+    all_goals omega
   have hex := UnaryOp_execute_eq LSL8.calculate vm _ d b _ hl hd hb hcalc hl
   obtain ⟨h1, h2, h3, h4, h5⟩ := alu_finish vm hwf d hd _ vm.flag_carry vm.flag_overflow hres _ hw _ _ rfl rfl
   exact ⟨_, hex, h1, allowed_of_eqv rfl rfl h2, h3, fun _ => ⟨h4, h5⟩⟩
@@ -190,6 +195,7 @@ theorem step_lsr8 (d b : Nat) (hd : d < 16) (hb : b < 16) (vm : VM) (hwf : WF vm
   simp only [← reg_eq_toNat hwf hb] at hres hw
   have hcalc : LSR8.calculate (reg vm b) vm = .ok (reg vm b / 256, vm) := by
     simp [LSR8.calculate]
+    all_goals omega
   have hex := UnaryOp_execute_eq LSR8.calculate vm _ d b _ hl hd hb hcalc hl
   obtain ⟨h1, h2, h3, h4, h5⟩ := alu_finish vm hwf d hd _ vm.flag_carry vm.flag_overflow hres _ hw _ _ rfl rfl
   exact ⟨_, hex, h1, allowed_of_eqv rfl rfl h2, h3, fun _ => ⟨h4, h5⟩⟩
@@ -319,7 +325,7 @@ theorem step_setlo (d : Nat) (v : Int) (hd : d < 16) (hv : -128 ≤ v ∧ v < 25
         have a1 : ¬ (v - 256 ≥ 65536) := by omega
         have a2 : ¬ (v - 256 < -32768) := by omega
         have a3 : v - 256 < 0 := by omega
-        simp [a1, a2, a3]; rfl
+        simp [a1, a2, a3]; first | rfl | exact congrArg Except.ok (by omega)
       have a3 : v - 256 < 0 := by omega
       simp only [M.bind_apply, M.get_apply, h1, decide_true, ↓reduceIte, e, M.lift_ok, a3]
       rw [store_register_eq _ d _ hl hd]
@@ -328,7 +334,7 @@ theorem step_setlo (d : Nat) (v : Int) (hd : d < 16) (hv : -128 ≤ v ∧ v < 25
         unfold to_u16
         have a1 : ¬ (v ≥ 65536) := by omega
         have a2 : ¬ (v < -32768) := by omega
-        by_cases a3 : v < 0 <;> simp [a1, a2, a3] <;> rfl
+        by_cases a3 : v < 0 <;> simp [a1, a2, a3] <;> first | rfl | exact congrArg Except.ok (by omega)
       simp only [M.bind_apply, M.get_apply, h1, decide_false, Bool.false_eq_true, ↓reduceIte, e, M.lift_ok]
       rw [store_register_eq _ d _ hl hd]
       rfl
